@@ -1,6 +1,254 @@
-"""C01 sections for the other diagram classes (cat, tensor, circuit, zx, biclosed, cartesian)."""
-CASES = {}
+"""C01 sections for the other diagram classes: cat arrows, tensor, circuit, zx, biclosed,
+cartesian.  Same OpExplorer idea as mc.c01 with the operation alphabet each class supports; the
+invariant is the same reference scan (for cat arrows: the boxes compose from dom to cod)."""
+import itertools
+
+from mc import ref, build, pools
+from mc.core import Part, pmap, digest, safe
+
+CLASSES = ("tensor", "circuit", "zx", "biclosed", "cartesian")
+
+
+def _sig(kind, params):
+    return "C01:%s:%s" % (kind, digest(params))
+
+
+def cat_scan(a):
+    errs = []
+    cur = a.dom
+    for i, b in enumerate(a.boxes):
+        if b.dom != cur:
+            errs.append("box %d (%s) has dom %s but the arrow is at %s" % (i, b, b.dom, cur))
+            return errs
+        cur = b.cod
+    if cur != a.cod:
+        errs.append("boxes end at %s but cod is %s" % (cur, a.cod))
+    return errs
+
+
+def class_pool(cls):
+    rs = [r for r in pools.recipes(cls, 1, 3)]
+    return rs[:: max(1, len(rs) // 6)][:6]
+
+
+def ops_for(d, cls, n_pool):
+    n = len(d)
+    yield ("dagger",)
+    for i in range(-1, n + 2):
+        for j in range(-1, n + 2):
+            yield ("slice", i, j)
+            yield ("rslice", i, j)
+        yield ("slice", i, None)
+        yield ("slice", None, i)
+        yield ("rslice", i, None)
+        yield ("rslice", None, i)
+    for i in range(n):
+        yield ("item", i)
+        for j in range(n):
+            if i != j:
+                yield ("interchange", i, j, False)
+                yield ("interchange", i, j, True)
+    for left in (False, True):
+        yield ("normal_form", left)
+    for t in range(8):
+        yield ("normalize_step", False, t)
+        yield ("foliate_step", t)
+    yield ("foliation_flatten",)
+    yield ("flatten",)
+    for k in range(n_pool):
+        for b in ("then", "then_rev", "tensor", "tensor_rev"):
+            yield (b, k)
+    yield ("self_tensor",)
+    yield ("sandwich",)
+    if cls in ("tensor", "circuit", "zx") and len(d.cod) <= 3:
+        for p in itertools.permutations(range(len(d.cod))):
+            yield ("permute", list(p))
+    if cls in ("circuit",):
+        yield ("init_and_discard",)
+        yield ("subs",)
+    if cls in ("tensor", "circuit", "zx"):
+        yield ("transpose", False)
+        yield ("transpose", True)
+
+
+def apply(d, op, cls, pool_vals):
+    name = op[0]
+    if name == "dagger":
+        return d[::-1]
+    if name == "slice":
+        return d[op[1]:op[2]]
+    if name == "rslice":
+        return d[op[1]:op[2]:-1]
+    if name == "item":
+        return d[op[1]]
+    if name == "interchange":
+        return d.interchange(op[1], op[2], left=op[3])
+    if name == "normal_form":
+        return d.normal_form(left=op[1])
+    if name == "normalize_step":
+        return next(itertools.islice(d.normalize(left=op[1]), op[2], None))
+    if name == "foliate_step":
+        return next(itertools.islice(d.foliate(), op[1], None))
+    if name == "foliation_flatten":
+        return d.foliation().flatten()
+    if name == "flatten":
+        return d.flatten()
+    if name == "then":
+        return d >> pool_vals[op[1]]
+    if name == "then_rev":
+        return pool_vals[op[1]] >> d
+    if name == "tensor":
+        return d @ pool_vals[op[1]]
+    if name == "tensor_rev":
+        return pool_vals[op[1]] @ d
+    if name == "self_tensor":
+        return d @ d
+    if name == "sandwich":
+        return d >> d[::-1]
+    if name == "permute":
+        return d.permute(*op[1])
+    if name == "init_and_discard":
+        return d.init_and_discard()
+    if name == "subs":
+        from sympy.abc import phi
+        return d.subs(phi, 1)
+    if name == "transpose":
+        return d.transpose(left=op[1])
+    raise ValueError(op)
+
+
+def check_chain(params):
+    """Replay: seed recipe + op chain in one of the classes; scan the final value and every
+    diagram built internally during the last op."""
+    from mc.c01 import OBS, install_hook
+    from discopy import monoidal
+    recipe = _norm(params["recipe"])
+    cls = recipe[0]
+    install_hook()
+    d = build.build(recipe)
+    pool_vals = [build.build(r) for r in class_pool(cls)]
+    ops = [tuple(o) for o in params["ops"]]
+    for op in ops[:-1]:
+        d = apply(d, op, cls, pool_vals)
+    out = []
+    OBS.start()
+    try:
+        v, exc = apply(d, ops[-1], cls, pool_vals), None
+    except Exception as e:  # noqa
+        v, exc = None, e
+    internal = OBS.stop()
+    if exc is None and isinstance(v, monoidal.Diagram):
+        errs = ref.scan(v)
+        if errs:
+            out.append((_sig("illtyped", [params["recipe"], params["ops"]]),
+                        "[%s] %s on %s is ill-typed: %s" % (cls, ops, build.build(recipe), errs[:3])))
+    for e in internal[:1]:
+        out.append((_sig("internal", [params["recipe"], params["ops"]]),
+                    "[%s] while running %s on %s: %s" % (cls, ops[-1], build.build(recipe), e)))
+    params["_exc"] = type(exc).__name__ if exc is not None else None
+    params["_val"] = v
+    return out
+
+
+def check_cat(params):
+    """cat arrows: every operation chain of length 1 from an arrow of the cat pool."""
+    from discopy import cat
+    from mc import c02
+    a = c02.cat_build(c02._norm(params["recipe"]))
+    out, n_ops = [], 0
+    others = [c02.cat_build(r) for r in c02.cat_recipes(1)]
+    results = []
+    n = len(a)
+    for i in range(-1, n + 2):
+        for j in range(-1, n + 2):
+            results.append(("[%d:%d]" % (i, j), lambda i=i, j=j: a[i:j]))
+            results.append(("[%d:%d:-1]" % (i, j), lambda i=i, j=j: a[i:j:-1]))
+    results.append(("[::-1]", lambda: a[::-1]))
+    for o in others:
+        results.append((">> %s" % o, lambda o=o: a >> o))
+        results.append(("<< %s" % o, lambda o=o: a << o))
+    F = cat.Functor(lambda x: x, lambda f: f)
+    results.append(("id functor", lambda: F(a)))
+    for label, thunk in results:
+        n_ops += 1
+        try:
+            v = thunk()
+        except Exception:
+            continue
+        if isinstance(v, cat.Arrow):
+            errs = cat_scan(v)
+            if errs:
+                out.append((_sig("cat-illtyped", [params["recipe"], label]), "[cat] (%s)%s is ill-typed: %s" % (a, label, errs)))
+    params["_n"] = n_ops
+    return out
+
+
+def _norm(r):
+    def t(x):
+        return tuple(t(y) for y in x) if isinstance(x, (list, tuple)) else x
+    return t(r)
+
+
+CASES = {"class_chain": safe("C01", check_chain), "cat_ops": safe("C01", check_cat)}
+
+
+def _explore(shard):
+    part = Part()
+    cls, seeds = shard
+    pool_vals_n = len(class_pool(cls))
+    for recipe in seeds:
+        d = build.build(recipe)
+        part.count("states")
+        errs = ref.scan(d)
+        if errs:
+            part.violation(_sig("seed-illtyped", recipe), "[%s] universe build of %s ill-typed: %s" % (cls, d, errs[:2]),
+                           "class_chain", dict(recipe=recipe, ops=[["slice", None, None]]))
+            continue
+        stopped = set()
+        for op in ops_for(d, cls, pool_vals_n):
+            if (op[0],) in stopped:
+                continue
+            params = dict(recipe=recipe, ops=[list(op)])
+            res = CASES["class_chain"](params)
+            part.count("transitions")
+            exc = params.pop("_exc", None)
+            params.pop("_val", None)
+            if exc is not None:
+                part.count("refused")
+                part.note("class_exception_types", "%s:%s" % (cls, exc), cap=80)
+                if op[0] in ("normalize_step", "foliate_step"):
+                    stopped.add((op[0],))
+            for sig, msg in res:
+                part.violation(sig, msg, "class_chain", params)
+        if len(recipe[2]) >= 1:
+            part.seen("nontrivial", repr(recipe))
+    return part
+
+
+def _cat_worker(shard):
+    part = Part()
+    for recipe in shard:
+        params = dict(recipe=recipe)
+        res = CASES["cat_ops"](params)
+        part.count("states")
+        part.count("transitions", params.pop("_n", 0))
+        for sig, msg in res:
+            part.violation(sig, msg, "cat_ops", params)
+    return part
 
 
 def run(ctx):
-    pass
+    from mc import c02
+    plan = []
+    for cls in CLASSES:
+        seeds = pools.recipes(cls, 2, 3)
+        if ctx.quick:
+            seeds = [r for r in seeds if len(r[2]) <= 1] + [r for r in seeds if len(r[2]) == 2][::6]
+        plan.append("%s: %d seeds, chains <= 1" % (cls, len(seeds)))
+        for p in pmap(_explore, [(cls, s) for s in build.shards(seeds, 32)]):
+            ctx.merge(p)
+    cats = c02.cat_recipes(3)
+    plan.append("cat: %d arrows" % len(cats))
+    for p in pmap(_cat_worker, build.shards(cats, 16)):
+        ctx.merge(p)
+    ctx.bounds["class_sections"] = plan
